@@ -40,3 +40,43 @@ Theorem C14_replace_index_history_independent : forall inner h,
   ob_sorted o = true -> ob_index o = sort_index (ob_repls o).
 Proof. intros inner h. exact (InvIdx_rrun inner h robj_new InvIdx_new). Qed.
 Print Assumptions C14_replace_index_history_independent.
+
+(* ---- == implies equal observations ---- *)
+From RS Require Import Stream.Types Stream.Tree Api.ApiHist Checkers.ChkTree Checkers.ChkHist.
+From RS Require Proofs.EqObsTree Proofs.EqObsHist.
+
+(* what == ignores is exactly the identity of the caches *)
+Theorem C14_eq_is_erasure : forall a b, src_eqb a b = true <-> EqObsTree.erase a = EqObsTree.erase b.
+Proof. exact EqObsTree.E1_src_eqb_erase. Qed.
+Print Assumptions C14_eq_is_erasure.
+
+(* equal sources without caches answer every stream and map() call identically, from any store *)
+Theorem C14_eq_implies_streams_and_maps : forall a b,
+  has_cached a = false -> has_cached b = false -> src_eqb a b = true ->
+  forall st o c, fst (stream st a o) = fst (stream st b o) /\ fst (map_of st a c) = fst (map_of st b c).
+Proof. exact EqObsTree.E2_eq_no_cached_answers. Qed.
+Print Assumptions C14_eq_implies_streams_and_maps.
+
+(* with CachedSource nodes (each cache used once per tree): equal sources that have seen the same
+   history of observer calls give identical answers - chunk streams, end info, maps, text views,
+   hash - although their caches are different objects *)
+Theorem C14_eq_implies_equal_histories : forall a b,
+  src_eqb a b = true -> EqObsTree.ids_distinct a -> EqObsTree.ids_distinct b ->
+  forall ops, fst (run_hops [] a ops) = fst (run_hops [] b ops).
+Proof. exact EqObsHist.E4_eq_histories. Qed.
+Print Assumptions C14_eq_implies_equal_histories.
+
+(* == and the hash are functions of the constructor data alone: whatever observers ran on either
+   side, == answers the same, symmetrically, before and after *)
+Theorem C14_eq_observation_independent : forall a b opsa opsb,
+  let o := api_pair a opsa b opsb in
+  po_eq o = src_eqb a b /\ po_eq0 o = po_eq o /\ po_eqr o = po_eq o.
+Proof. exact EqObsHist.E5_eq_history_independent. Qed.
+Print Assumptions C14_eq_observation_independent.
+
+(* the extracted checker accepts the model's observations of every equal pair with a common history *)
+Theorem C14_checker_accepts_model : forall a b ops,
+  src_eqb a b = true -> EqObsTree.same_sharing a b ->
+  chk_C14_pair a b (api_pair a ops b ops) = if tree_wf a && tree_wf b then 0 else 100.
+Proof. exact EqObsHist.E4_checker_accepts. Qed.
+Print Assumptions C14_checker_accepts_model.
